@@ -10,6 +10,8 @@ for log in sys.argv[1:]:
         if not m:
             continue
         name, chk, ex, nv, first = m.group(1), m.group(2), int(m.group(3)), int(m.group(4)), m.group(5)
+        if not os.path.exists(os.path.join(VERIF, "seeded", name, "meta.json")):
+            continue  # a proposal that was not kept (duplicate of another seed)
         meta = json.load(open(os.path.join(VERIF, "seeded", name, "meta.json")))
         r = results.setdefault(name, {"property": meta["property"], "summary": meta.get("summary", ""), "checks": {}})
         r.setdefault("checks", {})[chk] = {"exit": ex, "violations": nv, "first": first[:300]}
